@@ -2,6 +2,8 @@ from __future__ import annotations
 
 from typing import List, Dict, Any, TypeVar
 
+import pandas as pd
+
 from reamber.base import Timed
 from reamber.base.lists import TimedList
 
@@ -20,6 +22,19 @@ class QuaTimedList(TimedList[Item]):
             {k: v for k, v in r.items() if not (isinstance(v, float) and v != v)}
             for r in records
         ]
+
+    @staticmethod
+    def _to_frame(dicts: List[Dict[str, Any]], timed_keys=()) -> pd.DataFrame:
+        """A key that only some objects carry (e.g. ``EditorLayer``) keeps its
+        values as they are: a numeric column would turn the integers to floats.
+        ``timed_keys`` are the keys of the list's own fields, they stay numeric"""
+        df = pd.DataFrame(dicts)
+        for k in df.columns.difference(timed_keys):
+            if df[k].dtype.kind == "f" and df[k].isna().any():
+                df[k] = pd.Series(
+                    [d.get(k, float("nan")) for d in dicts], dtype=object
+                )
+        return df
 
     @staticmethod
     def from_yaml(dicts: List[Dict[str, Any]]) -> QuaTimedList:
